@@ -788,6 +788,9 @@ func runKMS(o *hlib.Out, rng *hlib.Rng, mut bool) {
 	// and is documented to "always fail" afterwards): every call on them, in particular Decrypt on
 	// WELL-FORMED envelopes, returns an error and never panics (C02: no input makes Decrypt panic).
 	misconfigured(o, rng)
+	// 7. … and hand-assembled envelopes whose DEK has the object's own unsupported-but-registered key type
+	// (kms_unsupported.go)
+	unsupportedDEK(o, rng, mut)
 }
 
 var supportedDEK = map[string]bool{urlGCM: true, urlGCMSIV: true, urlCTRHMAC: true, urlChaCha: true, urlXChaCha: true}
